@@ -72,25 +72,29 @@ BuildEv(e, b) ==
     THEN [ev |-> "B2", id |-> b.i, el |-> e, xdef |-> 0, ydef |-> 0, x |-> PaySeq(e, b.x), y |-> PaySeq(e, b.y),
           d |-> [s |-> <<Len(Grid), Len(Grid[1])>>, v |-> PaySeq(e, FlatGrid)], dtag |-> "Ix2", store |-> "Owned", dlay |-> "C",
           st |-> b.st]
-    ELSE [ev |-> "B1", id |-> b.i, el |-> e, xdef |-> 0, x |-> PaySeq(e, b.x),
-          d |-> [s |-> <<Len(b.y)>>, v |-> PaySeq(e, b.y)], dtag |-> "Ix1", store |-> "Owned", dlay |-> "C", xlay |-> "C",
-          st |-> b.st]
+    ELSE LET c == Cfg(b.x, b.y, b.st) IN
+         [ev |-> "B1", id |-> b.i, el |-> e, xdef |-> 0, x |-> PaySeq(e, b.x),
+          d |-> [s |-> c.dshape, v |-> PaySeq(e, c.dv)], dtag |-> IF Len(b.y) = 1 THEN "Ix1" ELSE "Ix2",
+          store |-> "Owned", dlay |-> "C", xlay |-> "C", st |-> b.st]
 
 \* position k of the call in the trail varies the static query type
 QueryEv(e, c, k) ==
     LET n == Len(c.qs)
-        two == objs[c.i].cfg.rank = 2
-        r == ReplyOf(c.i, objs[c.i], c.qs, c.buf)
+        o == objs[c.i]
+        two == o.cfg.rank = 2
+        lanes == IF ~two /\ NLanes(o) > 1 THEN <<NLanes(o)>> ELSE <<>>       \* trailing axes of the result
+        r == ReplyOf(c.i, o, c.qs, c.buf)
         exp == [out |-> r.out, vals |-> r.vals]
-        scalar == c.buf = "none" /\ n = 1 /\ k % 2 = 0
-        qshape == IF scalar THEN <<>> ELSE <<n>>
+        single == c.buf = "none" /\ n = 1 /\ k % 2 = 0                     \* a single-point entry: scalar / interp
+        qshape == IF single THEN <<>> ELSE <<n>>
         base == [ev |-> IF two THEN "Q2" ELSE "Q1", id |-> c.i, th |-> 0, qlay |-> "C", exp |-> exp,
-                 en |-> IF scalar THEN "scalar" ELSE IF c.buf = "none" THEN "array" ELSE "array_into",
-                 qtag |-> IF scalar THEN "Ix0" ELSE IF k % 3 = 0 THEN "IxDyn" ELSE "Ix1",
+                 en |-> IF single THEN (IF lanes = <<>> THEN "scalar" ELSE "interp")
+                        ELSE IF c.buf = "none" THEN "array" ELSE "array_into",
+                 qtag |-> IF single THEN (IF lanes = <<>> THEN "Ix0" ELSE "-") ELSE IF k % 3 = 0 THEN "IxDyn" ELSE "Ix1",
                  q |-> [s |-> qshape, v |-> IF two THEN PaySeq(e, [j \in 1..n |-> c.qs[j][1]]) ELSE PaySeq(e, c.qs)]]
         withY == IF two THEN [q2 |-> [s |-> qshape, v |-> PaySeq(e, [j \in 1..n |-> c.qs[j][2]])]] @@ base ELSE base
     IN  IF c.buf = "none" THEN withY
-        ELSE [buf |-> [lay |-> "C", s |-> IF c.buf = "ok" THEN <<n>> ELSE <<n + 1>>]] @@ withY
+        ELSE [buf |-> [lay |-> "C", s |-> (IF c.buf = "ok" THEN <<n>> ELSE <<n + 1>>) \o lanes]] @@ withY
 
 Emit1(e) ==
     /\ PrintT("CASE " \o ToJson([ev |-> "Mark"]))
